@@ -257,4 +257,29 @@ theorem shape_capSet_Slice : Facts.shape_capSet_Slice = some "359693340f0d0456" 
 theorem shape_capSet_Size : Facts.shape_capSet_Size = some "c8e15fe017984bd6" := by decide
 
 
+/-- [C20] `cfg.Pass` is mentioned only where it is set from ConnectTo's argument and in `h_REGISTER` -/
+theorem pass_read_only_in_register : Facts.cfgPassUsers = some ["ConnectToContext", "h_REGISTER"] := by decide
+
+/-- [C18,C20] `Conn.h.REGISTER` is the body the model transcribes -/
+theorem shape_Conn_h_REGISTER : Facts.shape_Conn_h_REGISTER = some "255f9d900ebf5c03" := by decide
+
+/-- [C18] `Conn.h.PING` is the body the model transcribes -/
+theorem shape_Conn_h_PING : Facts.shape_Conn_h_PING = some "02bfeef3d2f7e297" := by decide
+
+/-- [C18] `hasPort` is the body the model transcribes -/
+theorem shape_hasPort : Facts.shape_hasPort = some "f92aadd816c5f5b2" := by decide
+
+/-- [C18] `Conn.internalConnect` is the body the model transcribes -/
+theorem shape_Conn_internalConnect : Facts.shape_Conn_internalConnect = some "bc56d29103a613af" := by decide
+
+/-- [C18] `Conn.dialProxy` is the body the model transcribes -/
+theorem shape_Conn_dialProxy : Facts.shape_Conn_dialProxy = some "05cdd1be62679cc4" := by decide
+
+/-- [C18] `Conn.postConnect` is the body the model transcribes -/
+theorem shape_Conn_postConnect : Facts.shape_Conn_postConnect = some "9f8d669890c827d5" := by decide
+
+/-- [C18] `Conn.ping` is the body the model transcribes -/
+theorem shape_Conn_ping : Facts.shape_Conn_ping = some "fb69317c11dce15c" := by decide
+
+
 end FactsCheck
